@@ -349,7 +349,8 @@ def switch(chk):
     if any(isinstance(n, ast.Break) for n in ast.walk(fi.node)):
         chk.bad(rule, name, "the selection loop breaks at the first match: with sorted thresholds the SMALLEST matching threshold wins instead of the greatest", node=fi.node, stmt="break")
         ok = False
-    it = Interp(prog, fi, unroll=2)
+    swcls = fi.cls
+    it = Interp(prog, fi, unroll=2, inline=lambda f, ct: f.cls is swcls and f.name != "regulate")
     outs = it.run()
     chk.count(len(outs))
     DEFAULT = ("attr", SELF, "_default")
@@ -360,7 +361,7 @@ def switch(chk):
             ok = False
             continue
         iters = [e for e in o.path.events if e[0] == "loop-iter"]
-        regs = [e for e in o.path.events if e[0] == "call" and e[1][1][0] == "attr" and e[1][1][2] == "regulate"]
+        regs = [e for e in o.path.events if e[0] == "call" and e[1][1][0] == "attr" and e[1][1][2] == "regulate" and e[1][1][1] != SELF]
         if len(regs) != 1:
             chk.bad(rule, name, "a step delegates to %d controllers (required: exactly one)" % len(regs), node=fi.node, stmt="delegate-count")
             ok = False
